@@ -102,6 +102,9 @@ def oracle(ctx, name, line, obs, cap, koh_mask, valid=None):
     lossy = False
     repress_seen = False
     prev_isr = 0
+    since_evt = {}     # code -> strobed scan ticks since its last press / repeat event
+    first_rep = {}     # code -> the next repeat is the first one after a press event
+    dirty = set()      # keys touched by press/release calls or unstrobed since their last event: cadence not judged
     for k, (op, ob) in enumerate(zip(ops, res)):
         f = [int(x) for x in ob.split(",")]
         r, latch, irqs, isr, fifo = f[0], f[1], f[2], f[3], f[4:]
@@ -115,6 +118,8 @@ def oracle(ctx, name, line, obs, cap, koh_mask, valid=None):
             continue_after = False
         if p[0] == "p" and int(p[1]) in pressed:
             repress_seen = True
+        if p[0] in ("p", "r", "inj"):
+            dirty.add(int(p[1]))
         if p[0] == "p" and not continue_after:
             c = int(p[1])
             if c not in pressed:
@@ -150,6 +155,11 @@ def oracle(ctx, name, line, obs, cap, koh_mask, valid=None):
                     held[c] = 0
             for c in list(released_ago):
                 released_ago[c] += 1
+            for c in list(since_evt):
+                if c in pressed and active(ah, kol, koh, c // 8):
+                    since_evt[c] += 1
+                else:
+                    dirty.add(c)
         # --- FIFO: bounded; new contents = old contents minus a dropped prefix, plus new bytes
         if len(fifo) > cap:
             ctx.report([name, "fifo_exceeds_capacity"], f"{name}: FIFO holds {len(fifo)} > {cap} entries", {"case": " ".join(w[:7] + ops[:k + 1]), "fifo": fifo})
@@ -197,6 +207,23 @@ def oracle(ctx, name, line, obs, cap, koh_mask, valid=None):
                     if not rel and down.get(c, False) and repressed.get(c, False):
                         ctx.report([name, "press_event_without_release_event"], f"{name}: key {c} was released and pressed again but a new press event arrives with no release event in between", {"case": " ".join(w[:7] + ops[:k + 1])})
                         return
+                    if not rel and down.get(c, False):
+                        # a repeat event: not before the configured delay (first) / interval (later ones) has passed since the last event;
+                        # judged only for keys left alone (no press/release call, column strobed throughout) since their press event
+                        if not repressed.get(c, False) and c in since_evt and rep and c not in dirty:
+                            need = dl if first_rep.get(c, True) else iv
+                            if since_evt[c] < need:
+                                ctx.report([name, "repeat_event_early"], f"{name}: key {c} repeats {since_evt[c]} strobed ticks after its previous event; the configured {'delay' if first_rep.get(c, True) else 'interval'} is {need}",
+                                           {"case": " ".join(w[:7] + ops[:k + 1])})
+                                return
+                        first_rep[c] = False
+                        since_evt[c] = 0
+                    elif not rel:
+                        first_rep[c] = True
+                        since_evt[c] = 0
+                        dirty.discard(c)
+                    else:
+                        since_evt.pop(c, None)
                     down[c] = not rel
                     if not rel:
                         repressed[c] = False
